@@ -299,3 +299,41 @@ func vhHostileIntegers() {
 		vReach("generated")
 	}
 }
+
+// vhBadAmongGood: C20 for extension lists in which one entry passes the
+// schema but cannot be built (an OID arc beyond int, an IP octet above 255,
+// !binary: text that is not base64, an unknown key-usage name) at each
+// position among entries that build fine: generation returns an error - no
+// panic, and no certificate that silently lacks the entry.
+func vhBadAmongGood() {
+	bads := []AnyExtension{
+		{CertPolicies: &CertPolicies{Content: []CertPolicy{{Oid: "1.2.99999999999999999999"}}}},
+		{SubjectAltName: &SubjectAltName{Content: []SubjAltNameComponent{{Type: "ip", Name: "10.0.0.256"}}}},
+		{ExtKeyUsage: &ExtKeyUsage{Content: []string{"1.2.99999999999999999999"}}},
+		{CustomExtension: &CustomExtension{OidStr: "1.2.3.4.5", Raw: binaryPrefix + "@@@"}},
+		{KeyUsage: &KeyUsage{Content: []string{"noSuchUsage"}}},
+		{AdmissionExtension: &AdmissionExtension{Content: &Admission{Admissions: []SingleAdmission{{ProfessionInfos: []ProfessionInfo{{ProfessionItems: []string{"x"}, ProfessionOids: []string{"1.2.99999999999999999999"}}}}}}}},
+	}
+	goods := []AnyExtension{
+		{BasicConstraints: &BasicConstraints{Critical: true, Content: &BasicConstraintsObj{Ca: true}}},
+		{SubjectKeyIdentifier: &SubjectKeyIdentifier{Content: "hash"}},
+		{OcspNoCheckExtension: &OcspNoCheckExtension{}},
+	}
+	bad := bads[vChoose("bad", len(bads))]
+	n := vChoose("goods", 3) + 1
+	pos := vChoose("position", 4)
+	vAssume(pos <= n)
+	var list []AnyExtension
+	for k := 0; k <= n; k++ {
+		if k == pos {
+			list = append(list, bad)
+		}
+		if k < n {
+			list = append(list, goods[k])
+		}
+	}
+	crt, _, err := vGenerate(CertConfig{Subject: "CN=x", SerialNumber: 5, Extensions: list})
+	vReach("ran")
+	vAssert(err != nil, "an extension that cannot be built was dropped silently: a certificate was generated")
+	vAssert(err == nil || crt == nil, "an error was returned together with a certificate")
+}
